@@ -140,6 +140,10 @@ def helpers():
         lo, hi = (0, a[0]) if len(a) == 1 else a
         return all(bool(f(i)) for i in range(int(lo), int(hi)))
 
+    def exists(f, *a):
+        lo, hi = (0, a[0]) if len(a) == 1 else a
+        return any(bool(f(i)) for i in range(int(lo), int(hi)))
+
     def forall2(f, n, m):
         return all(bool(f(i, j)) for i in range(int(n)) for j in range(int(m)))
 
@@ -164,7 +168,7 @@ def helpers():
         idx = [i for i, m in enumerate(mask) if m]
         rank = {j: k for k, j in enumerate(idx)}
         return len(idx), (lambda k: idx[k]), (lambda j: rank[j])
-    return dict(forall=forall, forall2=forall2, implies=implies, iff=iff, at=at, ite=ite, sort_perm=sort_perm,
+    return dict(forall=forall, exists=exists, forall2=forall2, implies=implies, iff=iff, at=at, ite=ite, sort_perm=sort_perm,
                 mask_index=mask_index, is_none=lambda x: x is None,
                 spec_db2lin=lambda x: 10 ** (np.asarray(x) / 10) if not np.isscalar(x) else 10 ** (x / 10),
                 spec_lin2db=lambda x: 10 * np.log10(x),
